@@ -25,6 +25,12 @@ from crosshair.core import suspected_proxy_intolerance_exception
 
 from .api import (Draws, HarnessError, LogTrap, Reached, Violation, install_logtrap, jsonable)
 
+from . import sx_stubs
+sx_stubs.install()
+_bad = sx_stubs.conformance()
+if _bad:
+    raise HarnessError("inet stub disagrees with the C function on %r" % (_bad,))
+
 # ---------------------------------------------------------------- solver accounting
 _Q = {"n": 0, "t": 0.0}
 _orig_is_sat = _ss.solver_is_sat
